@@ -349,7 +349,10 @@ func (r *replayer) Delete(key []byte) {
 // - the given seek position
 func bytesPrefixRange(prefix, start []byte) *util.Range {
 	r := util.BytesPrefix(prefix)
-	r.Start = append(r.Start, start...)
+	// the bound gets a buffer of its own: appending to the caller's prefix would write into its spare capacity
+	from := make([]byte, 0, len(r.Start)+len(start))
+	from = append(from, r.Start...)
+	r.Start = append(from, start...)
 	return r
 }
 
